@@ -235,6 +235,12 @@ SHARED_CALLS = {'to_mask', 'get_mask', 'get_data', 'get_component', 'compute', '
 SHARED_ATTRS = {'data', '_data', 'mask', '_mask', 'codes', 'labels', '_categorical_data', 'categories'}
 
 
+def _mapping_store(st):
+    """`d['key'] = v`: a record being filled, not an array written in place."""
+    return isinstance(st, ast.Assign) and isinstance(st.targets[0], ast.Subscript) and isinstance(st.targets[0].slice, ast.Constant) \
+        and isinstance(st.targets[0].slice.value, str)
+
+
 def function_views(ix):
     """raw FunctionDef -> the tree the rules should read: the index's view of it (new private helpers inlined, temporaries
     folded), None for a new helper that was inlined everywhere it is called, the node itself for nested functions."""
@@ -260,7 +266,7 @@ def function_views(ix):
     return view
 
 
-def check_inplace_fresh(ctx, rule, ix, modules, extra_funcs=(), exceptions=None):
+def check_inplace_fresh(ctx, rule, ix, modules, extra_funcs=(), exceptions=None, borrowed_params=False):
     """In-place writes to array variables: the target must not be (on any reaching definition)
     the result of a mask/data accessor, which may be a memoised mask or component storage."""
     exceptions = exceptions or INPLACE_EXCEPTIONS
@@ -360,6 +366,9 @@ def check_inplace_fresh(ctx, rule, ix, modules, extra_funcs=(), exceptions=None)
         for st, name, tags in sites:
             nsites += 1
             shared = sorted(t for t in tags if t.startswith('shared:'))
+            if borrowed_params and 'param' in tags and not _mapping_store(st):
+                # the arrays a reducer is given belong to the caller (the mask may be a memoised one)
+                shared.append('an argument of the call (the caller\'s own array)')
             from ..util import alpha
             key = (construct, norm(st))
             exc = exceptions.get(key)
